@@ -688,7 +688,76 @@ generic:
 	return mk(&Term{Op: op, Sort: SReal, Args: []*Term{a, b}}, string(rune('R'))+key(op, a, b))
 }
 
-func RDiv(a, b *Term) *Term { return rbin(ODiv, a, b) }
+// RDiv divides reals. A divisor that is an ite-tree over constants (e.g. the
+// number of days in a year, 365 + (leap ? 1 : 0)) is lifted out so that every
+// division is by a constant and the query stays linear.
+func RDiv(a, b *Term) *Term {
+	if !b.IsConst() {
+		if cs, ok := constCases(b, 0); ok && len(cs) > 1 && len(cs) <= 8 {
+			res := rbin(ODiv, a, Real(cs[len(cs)-1].val))
+			for i := len(cs) - 2; i >= 0; i-- {
+				res = Ite(cs[i].cond, rbin(ODiv, a, Real(cs[i].val)), res)
+			}
+			return res
+		}
+	}
+	return rbin(ODiv, a, b)
+}
+
+type constCase struct {
+	cond *Term
+	val  *big.Rat
+}
+
+// constCases decomposes t into guarded constant values if t is built from constants, ite and +.
+func constCases(t *Term, depth int) ([]constCase, bool) {
+	if depth > 6 {
+		return nil, false
+	}
+	switch t.Op {
+	case OConst:
+		if t.Sort == SInt {
+			return []constCase{{True, new(big.Rat).SetInt(t.IV)}}, true
+		}
+		if t.Sort == SReal {
+			return []constCase{{True, t.RV}}, true
+		}
+	case OToReal:
+		return constCases(t.Args[0], depth+1)
+	case OIte:
+		a, ok1 := constCases(t.Args[1], depth+1)
+		b, ok2 := constCases(t.Args[2], depth+1)
+		if !ok1 || !ok2 {
+			return nil, false
+		}
+		var out []constCase
+		for _, c := range a {
+			out = append(out, constCase{And(t.Args[0], c.cond), c.val})
+		}
+		for _, c := range b {
+			out = append(out, constCase{And(Not(t.Args[0]), c.cond), c.val})
+		}
+		return out, len(out) <= 8
+	case OAdd:
+		a, ok1 := constCases(t.Args[0], depth+1)
+		b, ok2 := constCases(t.Args[1], depth+1)
+		if !ok1 || !ok2 || len(a)*len(b) > 8 {
+			return nil, false
+		}
+		var out []constCase
+		for _, x := range a {
+			for _, y := range b {
+				c := And(x.cond, y.cond)
+				if c == False {
+					continue
+				}
+				out = append(out, constCase{c, new(big.Rat).Add(x.val, y.val)})
+			}
+		}
+		return out, true
+	}
+	return nil, false
+}
 
 func rcmp(op Op, a, b *Term) *Term {
 	a, b = coerceR(a), coerceR(b)
